@@ -13,6 +13,7 @@ struct C13Plan
   int affinity;   // CPUs the process is allowed on (0: all)
   int nops;
   C13Op ops[10];
+  unsigned hop_mask;  // bit i: operation i is carried out by a helper thread started and joined for it
 };
 extern "C" {
 const C13Plan *c13_plan();
